@@ -6,3 +6,7 @@ import WowVerif.Props.C01
 #print axioms Wv.C01.unit_raw
 #print axioms Wv.C01.unit_compressed
 #print axioms Wv.C01.table_roundtrip
+#print axioms Wv.C01.archive_roundtrip
+#print axioms Wv.C01.readFile_spelling
+#print axioms Wv.C01.archive_roundtrip_spelling
+#print axioms Wv.C01.archive_absent
